@@ -53,10 +53,25 @@ def rewrite(h, mapping, depth=0, hits=None):
     return out
 
 
-def _bias_hint(rng, names):
+# TypeVar bounds / constraints and NewType supertypes are occurrences of a class too (beartype rewrites them, as the
+# property demands); the hand-rewriting below works on the hint DSL and cannot rebuild those objects, so hints that
+# mention them are generated for the tower kind only (no fixture TypeVar / NewType mentions float or complex).
+FAMILIES_NO_TV = ['union', 'opt', 'pipe', 'lit', 'tuple', 'vtuple', 'seq', 'set', 'map', 'counter', 'iter', 'type', 'ann',
+                  'proto', 'gen', 'shallow', 'leaf']
+
+
+def _has_tv(h):
+    if h['k'] in ('tv', 'newtype'):
+        return True
+    return any(_has_tv(a) for a in h.get('a', []) or [] if isinstance(a, dict))
+
+
+def _bias_hint(rng, names, no_tv=False):
     """A hint guaranteed to mention one of ``names`` somewhere."""
     for _ in range(40):
-        h = H.gen_hint(rng, rng.choice([1, 2, 3]))
+        h = H.gen_hint(rng, rng.choice([1, 2, 3]), families=FAMILIES_NO_TV if no_tv else None)
+        if no_tv and _has_tv(h):
+            continue
         hits = []
         rewrite(h, {n: {'k': 'any'} for n in names}, 0, hits)
         if hits:
@@ -84,7 +99,7 @@ def generate(rng, run, tier):
         ov = None
     elif kind == 'override':
         ov = rng.choice(OVERRIDES)
-        h = _bias_hint(rng, [ov[0]['n']])
+        h = _bias_hint(rng, [ov[0]['n']], no_tv=True)
         mapping = {ov[0]['n']: ov[1]}
     else:
         h = H.gen_hint(rng, rng.choice([1, 2, 3]))
